@@ -1721,6 +1721,8 @@ fn stmt_text_no_attrs<'s>(src: &'s str, s: &syn::Stmt, start: usize, end: usize)
     let attrs: &[syn::Attribute] = match s {
         syn::Stmt::Local(l) => &l.attrs,
         syn::Stmt::Macro(m) => &m.attrs,
+        syn::Stmt::Item(syn::Item::Static(i)) => &i.attrs,
+        syn::Stmt::Item(syn::Item::Const(i)) => &i.attrs,
         _ => &[],
     };
     for a in attrs {
